@@ -31,5 +31,26 @@ def run(ctx):
     rep.floor('R09.a', 150)
     skippers.depth_budget(rep, 'R09.d', prog, include_unsafe=False)
     skippers.progress(rep, 'R09.g', prog)
-    gen = ctx.get('gen_hook')
+    # generated decoders of the corpus (construct-level keys)
+    import gen_thrift
+    gprog, g, files = gen_thrift.load()
+    gb = [b for b in gprog.bodies.values() if b.crate == 'vgen' and 'thrift::Message>::decode' in b.key]
+    if len(gb) < 800:
+        rep.anchor_missing('G09.a', 'generated decode bodies in the corpus harness (found %d)' % len(gb))
+    audit.audit_generated(rep, 'G09.a', sorted(gb, key=lambda b: b.id), audited, lambda b: 'decode_async' if 'decode_async' in b.key else 'decode')
+    # recursive generated decoders have no depth budget (D11): SCCs through Message::decode of recursive corpus types
+    rec = set()
+    for tpath, ms in g.types.items():
+        for which in ('decode', 'decode_async'):
+            d = ms.get(which)
+            if d is None:
+                continue
+            for x in [d] + list(g.cg.children.get(d.id, [])):
+                for cs in x.calls():
+                    if cs.name == which and (cs.trait or '').endswith('thrift::Message'):
+                        tg = [t for t in cs.gargs if not t.startswith("'")]
+                        if tg and (tg[0] == tpath or tg[0].endswith('Box<%s>' % tpath)):
+                            rec.add(which)
+    for which in sorted(rec):
+        rep.bad('G09.d', 'G09.d|generated|recursive %s without depth budget' % which, '', 'generated %s of a recursive type calls itself with no depth parameter: nesting depth is bounded only by the input length, so a small crafted input exhausts the stack' % which)
     return rep
